@@ -391,6 +391,23 @@ func (fx *FuncExec) evalIdent(env *SpecEnv, name string) Val {
 		}
 		fx.specFail(env, "`result` used where no result is available")
 	}
+	if strings.HasPrefix(name, ghostPrefix+"idx") && len(name) > len(ghostPrefix+"idx") {
+		// $idxN outside loop clauses: the current value of the range index cell of loop N (inside the
+		// body: the iteration's index; after a normal exit: the length ranged over; after a break: the
+		// index of the iteration that broke out)
+		for _, li := range fx.loops {
+			if li.name == name[len(ghostPrefix+"idx"):] {
+				if a := li.rangeIndex(); a != nil {
+					if cv, ok := env.cur.cells[a]; ok {
+						return cv
+					}
+					// the loop has not been reached on this path
+					return Val{T: types.Typ[types.Int], Sort: SInt, S: "(- 1)"}
+				}
+			}
+		}
+		fx.specFail(env, "%s: no such range loop", name)
+	}
 	if name == ghostPrefix+"idx" {
 		if env.loop == nil {
 			fx.specFail(env, "$idx used outside a loop clause")
@@ -448,6 +465,12 @@ func (fx *FuncExec) evalIdent(env *SpecEnv, name string) Val {
 		}
 		if pv, ok := fx.paramVals[name]; ok {
 			return pv
+		}
+		if len(as) == 1 {
+			// the variable exists in the function but has not been allocated on this path yet (a loop
+			// variable before the first iteration): its value is arbitrary
+			pt := as[0].Type().Underlying().(*types.Pointer)
+			return fx.freshVal(pt.Elem(), "unalloc:"+name, st)
 		}
 		// variables captured by this closure
 		for _, fv := range fx.fn.FreeVars {
